@@ -27,3 +27,11 @@ def row_of(cx, rowptr, tag='rowptr', trigger=None):
     cx.assume(z3.Implies(z3.And(rowptr.n >= 1, rowptr.sel(z3.IntVal(0)) == 0, adj), concl),
               axiom='L-ROW: every position below rowptr[-1] lies in exactly one row of a monotone row pointer starting at 0 (lemmas/LRow.lean)')
     return row
+
+
+def strict_gap(cx, vec):
+    """L-MONO-GAP: adjacent strictly increasing integers are at least as far apart as their positions:
+    (forall i: a[i] < a[i+1])  =>  (forall i <= j: a[j] - a[i] >= j - i)."""
+    adj = qforall(1, lambda i: z3.Implies(z3.And(0 <= i, i + 1 < vec.n), vec.sel(i) < vec.sel(i + 1)))
+    gap = qforall(2, lambda i, j: z3.Implies(z3.And(0 <= i, i <= j, j < vec.n), vec.sel(j) - vec.sel(i) >= j - i))
+    cx.assume(z3.Implies(adj, gap), axiom='L-MONO-GAP: strictly increasing integers: a[j] - a[i] >= j - i (lemmas/LMono.lean)')
